@@ -83,12 +83,24 @@ def medium_phase(tier):
     return gen
 
 
+def cut_corridor_phase(tier):
+    def gen():
+        for d, asc in ((1100, True),) if tier == "quick" else ((1100, True), (1100, False), (2500, True)):
+            yield dict(medium=True, planted="cut_corridor", d=d, ascending=asc, route="prune")
+        yield dict(medium=True, planted="cut_corridor", d=300, ascending=True, route="no_prune")
+    return gen
+
+
 def check_medium(case):
     """Games of 20-300 states: outcome classified by the exact graph attractor (value(0) > 0 or not),
     termination against the bound derived from the float estimate T^ of the game iterated."""
     from harness import medium
     v = Verdict()
-    game = medium.medium_game(case["seed"], case["n_inner"], dead_frac=0.3)
+    if case.get("planted") == "cut_corridor":
+        game = games.cut_corridor_game(case["d"], ascending=case["ascending"])
+        v.cls("cut_corridor")
+    else:
+        game = medium.medium_game(case["seed"], case["n_inner"], dead_frac=0.3)
     prune = case["route"] == "prune"
     n = len(game["players"])
     v.key = case
@@ -98,7 +110,7 @@ def check_medium(case):
     if o is None:
         v.inconclusive = info
         return v
-    lab = f"medium game (seed={case['seed']}, {n} states) solve(prune={prune})"
+    lab = f"medium game (seed={case.get('seed')}, planted={case.get('planted')}, {n} states) solve(prune={prune})"
     v.nontrivial = True
     if 0 not in pos:
         v.cls("no_solution_game")
@@ -124,13 +136,15 @@ def check_medium(case):
 def slow_cases():
     for g in games.slow_choice_games():
         for route in ("prune", "no_prune", "batch"):
-            yield dict(game=g, route=route)
+            yield dict(game=g, route=route, allow_slow=True)
 
 
 def phases(tier):
     return [Phase("planted-zero-value-shapes", enum=planted),
             Phase("slow-rewarded-loops", enum=slow_cases, note="solves that need 10^3..10^5 sweeps"),
             Phase("medium-size-games", enum=medium_phase(tier), note="stopping games of 20-300 states"),
+            Phase("cut-corridors", enum=cut_corridor_phase(tier),
+                  note="a corridor of 1100+ non-Player-1 states that conditioning makes unreachable (removal cascade)"),
             Phase("stopping-games", strategy=lambda: cases(10 if tier == "quick" else 13), examples=(2400, 100000))]
 
 
@@ -175,7 +189,7 @@ def check_case(case):
     game = case["game"]
     route = case["route"]
     v.cls("route_" + route)
-    facts = GameFacts(game)
+    facts = GameFacts(game, allow_slow=bool(case.get("allow_slow")))
     try:
         if not facts.stopping:
             from harness.load import HarnessError
